@@ -43,23 +43,34 @@ ASSUMPTIONS = (
     "other entry points (array constructors, conversions, from_string, loadtxt header) are judged for the exception class only when "
     "the string itself is not a unit (Unit(s) raised): once a unit was constructed, conversion errors are C01/C03's subject; "
     "from_string's own ValueError('invalid quantity expression') is its documented gate and allowed",
+    "a re-read unit is judged aspect by aspect in the order dimension, offset, scale, ==, expression, hash and only the first failing aspect is reported "
+    "(one key per mechanism); units whose plain str->parse round trip already fails are not reported again for every persistence route",
+    "mechanism classes override the structural class of a unit in keys: huge-integer (> CPython's 4300-digit int->str limit), pow-nonreal-exponent, "
+    "negative-scale-root, offset-compound, internal-constructor-text, noncanonical-micro; an offset-free unit printing as the symbol of an offset unit is keyed "
+    "by the arithmetic operation after which that state first appeared",
+    "for the other entry points only evaluations nested inside the unit expression and calls made by it are sandbox-judged: those entry points do their own "
+    "I/O and lazy imports around the parse",
     "Unit(bytes) is part of the string interface (the constructor decodes bytes itself, HDF5 attributes come back as bytes)",
     "non-finite or zero scales (1e400*m, 0*m) are accepted by the constructor: the statement does not forbid them; noted",
-    "float range (same policy as C03): when the factor-by-factor computation of a scale leaves the normal double range (|log10 scale_i * exponent_i| > 290, "
+    "float range (same policy as C03): when the factor-by-factor computation of a scale leaves the normal double range (sum of |log10 scale_i * exponent_i| > 290, "
     "non-finite, zero or denormal result: YL**18/EΩ**18 is nan, l_pl**9 is denormal) overflow and denormals decide the number, not the string interface: "
     "scale and == are not judged for that unit (counted as discarded:scale-out-of-float-range); dimension, offset, expression and hash still are",
     "spellings: only the equivalences the statement lists (spacing, **-1 vs 1/, float vs rational exponents, sqrt forms, micro/ohm/angstrom/degree signs); "
     "equal = == plus same dimension vector, offset and scale; differing expressions between spellings are noted, not judged",
+    "lat has a negative scale (-pi/180) although every unit symbol is declared positive to sympy (sqrt(lat**2) simplifies to lat): the sign of the scale of "
+    "compounds containing lat is not judged against the independent tree value; roots of lat have no real scale and need not be accepted",
+    "x**p is evaluated as exp(p ln x) in double precision by both the library and the reference readers: tolerances carry a term |ln scale| ulps, and for units "
+    "built by arithmetic a budget of roundings accumulated along the recorded history",
     "symbols with a listed C02 value finding (Tsun, Mearth, ly, mp) are excluded from value comparisons against the reference table",
 )
-MIN_EVALS = 20000
+MIN_EVALS = 100000
 TIMEOUT = 1500
 EPS = 2.220446049250313e-16
 
 ENTRY_POINTS = ["Unit(str,registry=)", "Unit(bytes)", "unyt_array(list,str)", "unyt_quantity(float,str)", "q.to(str)", "q.in_units(str)",
                 "q.convert_to_units(str)", "q.to_value(str)", "unyt_quantity.from_string", "loadtxt-header", "q.to_equivalent(str,'spectral')"]
 PERSIST_ROUTES = ["pickle", "savetxt/loadtxt", "unyt_array(data,Unit,registry=)", "unyt_array(unyt_array,registry=)", "deepcopy(array)", "Unit.copy"]
-ARITH_OPS = ["mul", "div", "pow-int", "pow-fraction", "pow-float", "pow-numpy", "pow-string", "simplify", "base-equivalent", "cgs-equivalent", "mks-equivalent",
+ARITH_OPS = ["mul", "rmul", "div", "rdiv", "pow-int", "pow-fraction", "pow-float", "pow-numpy", "pow-string", "simplify", "base-equivalent", "cgs-equivalent", "mks-equivalent",
              "system-equivalent", "as_coeff_unit", "quantity-mul", "quantity-sqrt", "quantity-pow", "in_base", "in_cgs", "Unit(quantity)", "rtruediv"]
 SUBMON = ["tot", "sbx", "rr.str", "rr.repr", "sp", "gr", "txt", "per"]
 
@@ -189,6 +200,14 @@ def expr_info(c, u):
         return "huge-integer", False, n, has_float           # beyond CPython's int->str digit limit
     if nonreal:
         return cls, free, n, has_float
+    try:
+        for b, ex in e.as_powers_dict().items():
+            if isinstance(b, sp.Symbol) and not ex.is_Integer:
+                r = names.ref_unit(b.name)
+                if r is not None and r[0] < 0:
+                    return "negative-scale-root", False, n, has_float     # lat (scale -pi/180) under a fractional power
+    except Exception:
+        pass
     if offset_compound:
         return "offset-compound", free, n, has_float          # offset unit times a dimensionless unit keeps the zero point
     if any(s.name[0] == "µ" or (s.name[0] == "u" and is_micro(c, s.name.replace("Ω", "ohm"))) for s in syms):
@@ -357,19 +376,19 @@ def other_entries(c, rec, s, fam, base_outcome, which):
 
 
 def range_risky(c, u):
-    """does computing u's scale factor by factor leave the normal float range (|log10(scale_i) * exponent_i| > 290 for a symbol)?
+    """does computing u's scale factor by factor leave the normal float range (sum over the symbols of |log10(scale_i) * exponent_i| > 290)?
     then overflow/denormals decide the scale, not the string interface (same policy as C03: discarded, counted)"""
     extra = c.custom[1] if getattr(c, "custom", None) and u.registry is c.custom[0] else None
     try:
         pw = u.expr.as_powers_dict()
     except Exception:
         return False
+    total = 0.0
     for b, e in pw.items():
         if not isinstance(b, c.sympy.Symbol):
             if isinstance(b, c.sympy.Number) and b != 0:
                 try:
-                    if abs(math.log10(abs(float(b))) * float(e)) > 290:
-                        return True
+                    total += abs(math.log10(abs(float(b))) * float(e))
                 except Exception:
                     return True
             continue
@@ -382,15 +401,14 @@ def range_risky(c, u):
                 continue
             sc = r[0]
         try:
-            if abs(math.log10(abs(sc)) * float(e)) > 290:
-                return True
+            total += abs(math.log10(abs(sc)) * float(e))
         except Exception:
             return True
-    return False
+    return total > 290        # partial products, in whatever order the factors are taken, may leave the normal range
 
 
 # ------------------------------------------------------------------------------------------------ comparison of a re-read unit with the original
-def compare_units(c, rec, u, v, prefix, ucls, free, nfac, has_float, same_registry, case, budget=0.0, quiet=False):
+def compare_units(c, rec, u, v, prefix, ucls, free, nfac, has_float, same_registry, case, budget=0.0, quiet=False, mech=None):
     """-> True when v denotes u.  prefix e.g. 'C20:reread:str' ; keys prefix:<failure>:<ucls>"""
     sp = c.sympy
     ok = True
@@ -403,7 +421,8 @@ def compare_units(c, rec, u, v, prefix, ucls, free, nfac, has_float, same_regist
         if not quiet:
             k = ucls
             if kind == "offset-gained":
-                k = "offset-symbol"       # an offset-free unit whose expression is the symbol of an offset unit
+                # an offset-free unit whose expression is the symbol of an offset unit; the operation that produced that state names the mechanism
+                k = "offset-symbol-after-" + (mech or "unknown-operation")
             rec.violation(f"{prefix}:{kind}:{k}", msg, case)
     du, dv = udims(u), udims(v)
     if du is None or dv is None:
@@ -417,6 +436,8 @@ def compare_units(c, rec, u, v, prefix, ucls, free, nfac, has_float, same_regist
         bad("offset-lost" if ov == 0.0 else ("offset-gained" if ou == 0.0 else "offset-differs"), f"{case.get('text')!r}: offset {ou!r} became {ov!r}")
     bu, bv = float(u.base_value), float(v.base_value)
     tol = (1e-14 if has_float else 4 * EPS * (nfac + 1)) + 2 * EPS * budget
+    if bu and math.isfinite(bu) and (budget or "frac" in ucls or ucls in ("noncanonical-micro", "offset-compound")):
+        tol += 2 * EPS * abs(math.log(abs(bu)))      # x**p is evaluated as exp(p ln x) in 53 bits: relative error ~ |ln result| ulps
     degenerate = not (math.isfinite(bu) and math.isfinite(bv)) or bu == 0.0 or bv == 0.0 or abs(bu) < 1e-290 or abs(bu) > 1e290 or range_risky(c, u)
     if degenerate:
         rec.count("discarded:scale-out-of-float-range")
@@ -443,7 +464,7 @@ def compare_units(c, rec, u, v, prefix, ucls, free, nfac, has_float, same_regist
 INTERNAL_CTOR = re.compile(r"\b(Symbol|Integer|Float|Rational)\s*\(")
 
 
-def reread(c, rec, u, origin, reg=None, budget=0.0):
+def reread(c, rec, u, origin, reg=None, budget=0.0, mech=None):
     """rr sub-monitor on one unit; -> True when both printed forms read back as u"""
     try:
         ucls, free, nfac, has_float = expr_info(c, u)
@@ -476,10 +497,13 @@ def reread(c, rec, u, origin, reg=None, budget=0.0):
             allok = False
             continue
         if out != "ok":
-            rec.violation(f"C20:reread:{how}:unparseable:{ucls}", f"{how}() of the unit built from {origin!r} is {text[:100]!r}, which does not parse ({out})", case)
             allok = False
+            if out.startswith("other:") and ucls != "negative-scale-root":
+                rec.note("rr:reparse-escaped-with-another-exception(reported-by-tot)")
+                continue
+            rec.violation(f"C20:reread:{how}:unparseable:{ucls}", f"{how}() of the unit built from {origin!r} is {text[:100]!r}, which does not parse ({out})", case)
             continue
-        if compare_units(c, rec, u, v, f"C20:reread:{how}", ucls, free, nfac, has_float, True, case, budget):
+        if compare_units(c, rec, u, v, f"C20:reread:{how}", ucls, free, nfac, has_float, True, case, budget, mech=mech):
             rec.ok(("rr", how, ucls, origin.split(":")[0] if isinstance(origin, str) else "unit"))
         else:
             allok = False
@@ -498,6 +522,15 @@ def leaf_ref(c, name, extra):
     scale, dim, de, f = r
     sym = names.resolve(name)[1]
     return scale, dim, de.tol, sym in TAINTED
+
+
+def has_negative_leaf(c, t, extra):
+    for l in G.leaves(t):
+        if l[0] == "n":
+            r = leaf_ref(c, l[1], extra)
+            if r is not None and r[0] < 0:
+                return True
+    return False
 
 
 class ComplexScale(Exception):
@@ -532,7 +565,7 @@ def tree_eval(c, t, extra=None):
     raise ValueError(k)
 
 
-def printed_text_check(c, rec, u, ucls, extra, origin):
+def printed_text_check(c, rec, u, ucls, extra, origin, budget=0.0):
     """txt: read str(u) with the independent evaluator and compare with the unit that printed it"""
     try:
         text = str(u)
@@ -576,6 +609,9 @@ def printed_text_check(c, rec, u, ucls, extra, origin):
             tainted = tainted or r[1] in TAINTED
         tol += 8 * EPS * max(1.0, e)
     bu = float(u.base_value)
+    tol += 2 * EPS * budget
+    if bu and math.isfinite(bu):
+        tol += 4 * EPS * abs(math.log(abs(bu)))      # both readers evaluate powers as exp(p ln x)
     if tainted:
         rec.note("txt:tainted-symbol-value-not-compared")
         rec.ok(("txt", ucls, "dimension-only"))
@@ -806,7 +842,10 @@ def do_grammar(c, rec, payload):
                 rec.violation(f"C20:grammar:dimension-differs:{shp}", f"Unit({s!r}) has dimensions {dims.show(du)}; the tree evaluates to {dims.show(dv)}", case)
             elif tainted:
                 rec.ok(("gr", shp, "dimension-only"))
-            elif abs(lg) > 280 or range_risky(c, u) or not math.isfinite(float(u.base_value)):
+            elif has_negative_leaf(c, t, extra):
+                rec.note("gr:compound-of-negative-scale-unit:sign-not-judged")
+                rec.ok(("gr", shp, "dimension-only"))
+            elif abs(lg) > 280 or range_risky(c, u) or not math.isfinite(float(u.base_value)) or float(u.base_value) == 0.0:
                 rec.count("discarded:scale-out-of-float-range")
                 rec.ok(("gr", shp, "dimension-only"))
             else:
@@ -858,27 +897,69 @@ POWS = [("pow-int", [2, 3, -1, -2, 4, -3, 1, 0, 5]), ("pow-fraction", [Fr(1, 2),
         ("pow-numpy", ["np.float64(0.5)", "np.int64(2)", "np.float32(1.5)", "np.int8(-1)", "np.float64(1/3)"]), ("pow-string", ["2/3", "0.25", "-3/2"])]
 
 
+def is_offset_symbol(c, u):
+    """is the unit's expression the bare symbol of a unit that the reference table defines with a zero point?"""
+    e = u.expr
+    if not isinstance(e, c.sympy.Symbol):
+        return False
+    r = names.resolve(e.name)
+    return r is not None and defs.T[r[1]].offset != 0.0
+
+
+def partner(c, r, atoms, U, reg):
+    """right/left operand of a product or quotient: an atom, or (1 in 8) an identity-like unit whose expression is 1"""
+    k = r.random()
+    if k < 0.06:
+        return (c.Unit(registry=reg) if reg is not None else c.Unit()), "1"
+    if k < 0.12:
+        a = U(r.choice(atoms))
+        try:
+            return a / a, "(" + str(a) + "/" + str(a) + ")"
+        except Exception:
+            return a, str(a)
+    a = U(r.choice(atoms))
+    return a, str(a)
+
+
+def fresh_copy(c, u):
+    """the same unit as a new object built through the constructor's expression path (no string involved)"""
+    return c.Unit(u.expr, base_value=u.base_value, base_offset=u.base_offset, dimensions=u.dimensions, registry=u.registry)
+
+
 def gen_arith(c, rec, r, atoms, U, reg):
-    """one unit produced by random unit arithmetic; returns (unit, description)"""
+    """one unit produced by random unit arithmetic; returns (unit, description, rounding budget, mechanism note)"""
     unyt, np = c.unyt, c.np
-    u = U(r.choice(atoms))
-    desc = [str(u)]
+    u, d0 = partner(c, r, atoms, U, reg)
+    desc = [d0]
     budget = 0.0       # roundings accumulated in base_value by the arithmetic history (ulps), used for 'same scale up to rounding'
+    mech = None        # first operation after which the unit is the bare symbol of an offset unit without its zero point
+    keys = {}
     for _ in range(r.randint(1, 5)):
         k = r.random()
         try:
             b0 = budget
-            if k < 0.26:
-                w = U(r.choice(atoms)); u = u * w; op = "mul"; desc.append("*" + str(w)); budget = b0 + 1
+            if r.random() < 0.3:
+                keys[u] = 1          # units are used as dict keys (hashed) at arbitrary points of their history
+                rec.count("arith.hashed-intermediate")
+            if k < 0.20:
+                w, dw = partner(c, r, atoms, U, reg); u = u * w; op = "mul"; desc.append("*" + dw); budget = b0 + 1
+            elif k < 0.28:
+                w, dw = partner(c, r, atoms, U, reg); u = w * u; op = "rmul"; desc.insert(0, dw + "*("); desc.append(")"); budget = b0 + 1
+            elif k < 0.43:
+                w, dw = partner(c, r, atoms, U, reg); u = u / w; op = "div"; desc.append("/" + dw); budget = b0 + 1
             elif k < 0.48:
-                w = U(r.choice(atoms)); u = u / w; op = "div"; desc.append("/" + str(w)); budget = b0 + 1
+                w, dw = partner(c, r, atoms, U, reg); u = w / u; op = "rdiv"; desc.insert(0, dw + "/("); desc.append(")"); budget = b0 + 1
             elif k < 0.70:
                 op, vals = r.choice(POWS)
                 p = r.choice(vals)
                 pv = eval(p, {"np": np}) if op == "pow-numpy" else p
-                u = u ** pv; desc.append("**(" + str(p) + ")"); budget = b0 * abs(float(Fr(str(p))) if op == "pow-string" else float(pv)) + 4
+                u = u ** pv; desc.append("**(" + str(p) + ")"); budget = b0 * abs(float(Fr(str(p))) if op == "pow-string" else float(pv)) + 4 + _lnb(u)
             elif k < 0.75:
-                u = (u ** 1).simplify(); op = "simplify"; desc.append(".simplify()"); budget = b0 + 8
+                v = fresh_copy(c, u)
+                if r.random() < 0.6:
+                    keys[v] = 2      # hashed while un-simplified; simplify() rewrites the expression in place
+                    rec.count("arith.hashed-before-simplify")
+                u = v.simplify(); op = "simplify"; desc.append(".simplify()"); budget = b0 + 8
             elif k < 0.79:
                 u = u.get_base_equivalent(); op = "base-equivalent"; desc.append(".get_base_equivalent()")
             elif k < 0.82:
@@ -893,9 +974,9 @@ def gen_arith(c, rec, r, atoms, U, reg):
             elif k < 0.93:
                 w = U(r.choice(atoms)); u = ((2.5 * u) * (4 * w)).units; op = "quantity-mul"; desc.append(" q*" + str(w)); budget = b0 + 2
             elif k < 0.95:
-                u = np.sqrt(3.0 * u).units; op = "quantity-sqrt"; desc.append(" np.sqrt(q)"); budget = b0 / 2 + 4
+                u = np.sqrt(3.0 * u).units; op = "quantity-sqrt"; desc.append(" np.sqrt(q)"); budget = b0 / 2 + 4 + _lnb(u)
             elif k < 0.96:
-                qp = r.choice([2, 0.5, -1, 1.5]); u = ((3.0 * u) ** qp).units; op = "quantity-pow"; desc.append(f" q**{qp}"); budget = b0 * abs(qp) + 4
+                qp = r.choice([2, 0.5, -1, 1.5]); u = ((3.0 * u) ** qp).units; op = "quantity-pow"; desc.append(f" q**{qp}"); budget = b0 * abs(qp) + 4 + _lnb(u)
             elif k < 0.975:
                 u = (2.0 * u).in_base().units; op = "in_base"; desc.append(" q.in_base()")
             elif k < 0.985:
@@ -906,14 +987,24 @@ def gen_arith(c, rec, r, atoms, U, reg):
             else:
                 u = (1 / u).units; op = "rtruediv"; desc.append(" 1/u"); budget = b0 + 2
             rec.reach("arith:" + op)
+            if mech is None and u.base_offset == 0.0 and is_offset_symbol(c, u):
+                mech = op
         except Hangish:
             raise
         except Exception as e:
             rec.note("arith-step-refused:" + type(e).__name__)
-    return u, "".join(desc)[:200], budget + 4 * len(desc)
+    return u, "".join(desc)[:200], budget + 4 * len(desc), mech
 
 
 Hangish = sbx.Hang
+
+
+def _lnb(u):
+    try:
+        b = abs(float(u.base_value))
+        return 2 * abs(math.log(b)) if b and math.isfinite(b) else 0.0
+    except Exception:
+        return 0.0
 
 
 def do_arith(c, rec, payload):
@@ -925,6 +1016,8 @@ def do_arith(c, rec, payload):
         atoms = [x[0] for x in CUSTOM] + ["kcode_time", "msmoot"] + r.sample(c.canon_names, 30)
     elif pool_kind == "offset":
         atoms = ["degC", "degF", "lat", "lon", "mdegC", "dimensionless", "percent", "%", "ppm", "K", "delta_degC", "dB", "Np", "rad", "degree", "count"]
+    elif pool_kind == "coherent":     # SI-coherent units: products cancel to coefficient-free expressions under simplify()
+        atoms = ["m", "s", "kg", "Hz", "N", "J", "W", "Pa", "C", "A", "V", "ohm", "F", "H", "T", "Wb", "S", "Bq", "Gy", "Sv", "rad", "sr", "lm", "lx", "cd", "K", "mol"]
     elif pool_kind == "canon":
         atoms = c.canon_names
     else:
@@ -936,14 +1029,14 @@ def do_arith(c, rec, payload):
         if o.outcome != "ok":
             rec.note("arith-generation-" + o.outcome)
             continue
-        u, desc, budget = o.value
+        u, desc, budget, mech = o.value
         rec.count("arith-units")
-        reread(c, rec, u, "arith:" + desc, budget=budget)
+        reread(c, rec, u, "arith:" + desc, budget=budget, mech=mech)
         try:
             ucls = expr_info(c, u)[0]
         except Exception:
             continue
-        printed_text_check(c, rec, u, ucls, extra, "arith:" + desc)
+        printed_text_check(c, rec, u, ucls, extra, "arith:" + desc, budget)
         if i % 2 == 0:
             persist(c, rec, u, "arith:" + desc, [PERSIST_ROUTES[(i // 2 + j) % len(PERSIST_ROUTES)] for j in range(2)], budget)
         last = desc
@@ -1183,8 +1276,8 @@ def batches(tier, seed):
         b.append(("grammar/%d" % i, ("grammar", (seed, i, per_g, 3 if quick else 4, pk))))
     na, per_a = (16, 300) if quick else (64, 2500)
     for i in range(na):
-        pk = ["canon", "all", "offset", "custom", "canon", "all"][i % 6]
-        b.append(("arith/%d" % i, ("arith", (seed, i, per_a if pk != "offset" else per_a // 2, pk))))
+        pk = ["canon", "all", "offset", "custom", "coherent", "all", "canon", "coherent"][i % 8]
+        b.append(("arith/%d" % i, ("arith", (seed, i, per_a, pk))))
     H = G.hostile_templates()
     embeds = ["bare", "times-unit", "as-exponent"] if quick else [e for e, _ in EMBED]
     for i, ch in enumerate(chunks(H, 16 if quick else 32)):
